@@ -8,7 +8,8 @@ type VarGenerator struct {
 }
 
 func NewVarGenerator() VarGenerator {
-	vs := []string{"x", "y", "z", "p", "q", "r", "s", "t", "u", "v", "w", "a", "b", "c", "d", "e", "f", "g", "h", "i", "j", "k", "l", "m", "n", "o"}
+	// "a" is not offered: nested constraints name the collection of a variable <name>s, and `as` is a Rego keyword
+	vs := []string{"x", "y", "z", "p", "q", "r", "s", "t", "u", "v", "w", "b", "c", "d", "e", "f", "g", "h", "i", "j", "k", "l", "m", "n", "o"}
 	return VarGenerator{
 		vars:    vs,
 		counter: 0,
